@@ -469,6 +469,17 @@ func (in *Interp) staticInit(pkg *ssa.Package, st *MState) *MState {
 					defer func() { recover() }()
 					v = in.constVal(x)
 				}()
+			case *ssa.Call:
+				// a package-level object made by a constructor the executor models (e.g. a hash object
+				// kept in a global): it exists from the start
+				if f := x.Call.StaticCallee(); f != nil && len(x.Call.Args) == 0 && f.String() == "crypto/sha256.New" {
+					func() {
+						defer func() { recover() }()
+						if r, ok := act.intrinsic(f.String(), FuncV{fn: f}, nil); ok {
+							v = r
+						}
+					}()
+				}
 			}
 			if v == nil {
 				continue
